@@ -245,13 +245,13 @@ func init() {
 						kind := vpS(args, "kind")
 						if s >= len(recs) || cIdx >= len(recs) {
 							obs["diverged"] = true
-							steps = append(steps, obs)
-							continue
+							break
 						}
 						srec := recs[s]
 						state := srec.state
-						if vpS(args, "stateMut") == "tampered" {
-							// flip the first character of the nonce part of the state
+						if sm := vpS(args, "stateMut"); sm == "head" || sm == "tail" {
+							// flip the first character of the nonce part of the state (inside the prefix the per-request cookie
+							// name is derived from) or its last character (outside that prefix)
 							raw := state
 							if cfg.EncodeState {
 								if dec, err := base64.RawURLEncoding.DecodeString(state); err == nil {
@@ -259,11 +259,15 @@ func init() {
 								}
 							}
 							bs := []byte(raw)
-							if len(bs) > 0 {
-								if bs[0] != 'A' {
-									bs[0] = 'A'
+							pos := 0
+							if sm == "tail" {
+								pos = strings.Index(raw, ":") - 2 // not the last sextet (padding bits), see vpMutateSigned
+							}
+							if pos >= 0 && pos < len(bs) {
+								if bs[pos] != 'A' {
+									bs[pos] = 'A'
 								} else {
-									bs[0] = 'B'
+									bs[pos] = 'B'
 								}
 							}
 							state = string(bs)
@@ -273,8 +277,35 @@ func init() {
 						}
 						var cookieHdr string
 						jar := jars[vpS(args, "b")]
+						// the model's view of the environment must be the real one, otherwise the rest of the behaviour says
+						// nothing about the property (DESIGN 2.4: diverged)
+						if c := w.idp.codeUnused(recs[cIdx].code); c != vpB(args, "codeFresh") {
+							obs["diverged"] = true
+							break
+						}
 						if kind == "honest" {
 							cookieHdr = jar.header()
+							var held []int
+							for _, ck := range jar.list() {
+								if ck.Name != srec.ckName {
+									continue
+								}
+								for li := 1; li < len(recs); li++ {
+									if recs[li].ckValue == ck.Value {
+										held = append(held, li)
+									}
+								}
+							}
+							var want []int
+							if cl, ok := args["cookies"].([]interface{}); ok {
+								for _, e := range cl {
+									want = append(want, vpI(e.(map[string]interface{}), "val"))
+								}
+							}
+							if fmt.Sprint(held) != fmt.Sprint(want) {
+								obs["diverged"] = true
+								break
+							}
 						} else {
 							var parts []string
 							if cl, ok := args["cookies"].([]interface{}); ok {
@@ -292,6 +323,15 @@ func init() {
 						}
 						before := len(w.idp.snapshotCalls())
 						r := w.callbackRaw(cookieHdr, recs[cIdx].code, state)
+						others := 0
+						for _, ck := range r.Cookies {
+							if w.isCSRFCookieName(ck.Name) && ck.Name != srec.ckName && (ck.MaxAge < 0 || ck.Value == "") {
+								if kind != "honest" || jar.get(ck.Name) != nil {
+									others++
+								}
+							}
+						}
+						obs["clearedOthers"] = others
 						if kind == "honest" {
 							jar.applyAll(r)
 						}
@@ -319,6 +359,9 @@ func init() {
 						conc = append(conc, map[string]interface{}{"callback": kind, "cookie": cookieHdr, "state": state, "code": recs[cIdx].code, "status": r.Status})
 					}
 					steps = append(steps, obs)
+					if obs["diverged"] == true {
+						break
+					}
 				}
 				env.emit(vpOut{ID: c.ID, Steps: steps, Conc: conc})
 			}
